@@ -31,6 +31,8 @@ struct Case {
     kernel: String, // "linear" | "gaussian" | "poly"
     p1: f64,        // gaussian: eps; poly: constant
     p2: f64,        // poly: degree (integer valued)
+    /// run the hierarchical-clustering sweep on the kernels of this case
+    cluster: bool,
 }
 
 const KINDS: [(&str, CommonNearestNeighbour); 3] = [
@@ -369,6 +371,9 @@ fn run_typed<F: Float>(case: &Case, viols: &mut Vec<Violation>) -> Counters {
             }
             let exact = lower == upper;
             bump(&mut cnt, if exact { "sparse_patterns_exact" } else { "sparse_patterns_tied_bounds_only" }, 1);
+            if exact && n > 16 {
+                bump(&mut cnt, "sparse_patterns_exact_on_sets_above_leaf_size", 1);
+            }
             if !exact {
                 bump(&mut cnt, "indeterminate", 1);
             }
@@ -442,7 +447,8 @@ fn run_typed<F: Float>(case: &Case, viols: &mut Vec<Violation>) -> Counters {
         }
 
         // ---- hierarchical clustering on this kernel ----
-        if case.kernel == "gaussian" && !is32 && !bad_value {
+        let big = n > 8;
+        if case.cluster && !bad_value && (!big || kname == "dense" || (nn_name == "kdtree" && [1usize, 2, 5].contains(&kk))) {
             if clustered.iter().any(|m| *m == img.m) {
                 bump(&mut cnt, "clustering_skipped_same_matrix_as_other_index", 1);
             } else {
@@ -486,8 +492,12 @@ fn kodama_method(l: Link) -> Method {
 /// Only called for f64 kernels (the reference is f64); generic so that it can sit inside `run_typed`.
 fn cluster_sweep<F: Float>(case: &Case, kernel: &Kernel<F>, img: &Image, at_kernel: &Value, viols: &mut Vec<Violation>, cnt: &mut Counters) {
     let n = img.m.len();
-    // dissimilarity = -ln(max(K, 1e-6)), from the kernel's own (already verified) matrix
-    let floor = 1e-6f64;
+    // dissimilarity = -ln(max(K, 1e-6)), from the kernel's own (already verified) matrix, computed
+    // with the subject's float type so that input entries are bit-identical
+    let is32 = case.float == "f32";
+    let tie_rel = if is32 { 1e-4 } else { 1e-9 };
+    let floor_f: F = F::cast(1e-6);
+    let floor = to_f64(floor_f);
     let dis: Vec<Vec<f64>> = (0..n)
         .map(|i| {
             (0..n)
@@ -495,8 +505,8 @@ fn cluster_sweep<F: Float>(case: &Case, kernel: &Kernel<F>, img: &Image, at_kern
                     if i == j {
                         0.0
                     } else {
-                        let x = img.m[i.min(j)][i.max(j)];
-                        let v = if x > floor { -x.ln() } else { -floor.ln() };
+                        let x: F = F::cast(img.m[i.min(j)][i.max(j)]);
+                        let v = to_f64(if x > floor_f { -x.ln() } else { -floor_f.ln() });
                         if v == 0.0 {
                             0.0
                         } else {
@@ -572,7 +582,7 @@ fn cluster_sweep<F: Float>(case: &Case, kernel: &Kernel<F>, img: &Image, at_kern
                 ));
                 continue;
             }
-            let out = linkref::admissible(link, &dis, Stop::Count(c));
+            let out = linkref::admissible(link, &dis, Stop::Count(c), tie_rel);
             if out.degenerate || out.overflow {
                 bump(cnt, "reference_degenerate_skipped", 1);
                 bump(cnt, "indeterminate", 1);
@@ -594,13 +604,22 @@ fn cluster_sweep<F: Float>(case: &Case, kernel: &Kernel<F>, img: &Image, at_kern
             }
         }
         // ---------- Distance(t) ----------
-        let mut hs: Vec<f64> = inputs.clone();
-        hs.extend(linkref::canonical_heights(link, &dis));
-        hs.retain(|h| h.is_finite() && *h >= 0.0);
+        // thresholds sit exactly at / midway between the distinct dissimilarities: all input entries
+        // and the merge heights of one full agglomeration (large sets: the merge heights and the
+        // extreme inputs only); only non-negative finite thresholds are valid parameters
+        let mut hs: Vec<f64> = linkref::canonical_heights(link, &dis);
+        if n <= 8 {
+            hs.extend(inputs.iter().cloned());
+        } else {
+            hs.push(inputs.iter().cloned().fold(f64::INFINITY, f64::min));
+            hs.push(inputs.iter().cloned().fold(f64::NEG_INFINITY, f64::max));
+        }
+        hs.retain(|h| h.is_finite());
         hs.sort_by(|a, b| a.partial_cmp(b).unwrap());
+        let dedupe = if is32 { 1e-4 } else { 1e-7 };
         let mut distinct: Vec<f64> = Vec::new();
         for h in hs {
-            if distinct.last().map_or(true, |&l| h - l > 1e-7 * l.abs().max(1.0)) {
+            if distinct.last().map_or(true, |&l| h - l > dedupe * l.abs().max(1.0)) {
                 distinct.push(h);
             }
         }
@@ -612,12 +631,19 @@ fn cluster_sweep<F: Float>(case: &Case, kernel: &Kernel<F>, img: &Image, at_kern
             thresholds.push(((w[0] + w[1]) / 2.0, "midpoint"));
         }
         if let Some(&f) = distinct.first() {
-            if f > 0.0 {
-                thresholds.push((f / 2.0, "below_min"));
-                thresholds.push((0.0, "zero"));
+            thresholds.push((f / 2.0, "below_min"));
+        }
+        thresholds.push((0.0, "zero"));
+        thresholds.push((distinct.last().cloned().unwrap_or(0.0) + 1.0, "above_max"));
+        thresholds.retain(|(t, _)| *t >= 0.0);
+        for th in thresholds.iter_mut() {
+            // the threshold as the subject sees it
+            th.0 = to_f64(F::cast(th.0));
+            if th.0 == 0.0 {
+                th.0 = 0.0;
             }
         }
-        thresholds.push((distinct.last().cloned().unwrap_or(0.0) + 1.0, "above_max"));
+        thresholds.dedup_by(|a, b| a.0 == b.0 && a.1 == b.1);
         for (t, tclass) in thresholds {
             bump(cnt, "evals", 1);
             bump(cnt, "threshold_runs", 1);
@@ -648,7 +674,7 @@ fn cluster_sweep<F: Float>(case: &Case, kernel: &Kernel<F>, img: &Image, at_kern
                     continue;
                 }
             }
-            let out = linkref::admissible(link, &dis, Stop::Below { t, inclusive: false });
+            let out = linkref::admissible(link, &dis, Stop::Below { t, inclusive: false }, tie_rel);
             if out.degenerate || out.overflow {
                 bump(cnt, "reference_degenerate_skipped", 1);
                 bump(cnt, "indeterminate", 1);
@@ -673,7 +699,7 @@ fn cluster_sweep<F: Float>(case: &Case, kernel: &Kernel<F>, img: &Image, at_kern
                 bump(cnt, "compared_against_tie_set", 1);
             }
             if !out.partitions.contains(&canon) {
-                let alt = linkref::admissible(link, &dis, Stop::Below { t, inclusive: true });
+                let alt = linkref::admissible(link, &dis, Stop::Below { t, inclusive: true }, tie_rel);
                 let sig = if tclass == "exactly_at" && alt.partitions.contains(&canon) {
                     "hierarchical.threshold.merge_at_threshold_performed"
                 } else {
@@ -753,23 +779,56 @@ fn main() {
     for ss in en::subsets_upto(7, 2, nmax) {
         sets.push(("three_features".into(), ss.iter().map(|&i| pool3[i].clone()).collect(), 3));
     }
+    // large sets: the neighbour indices are real trees only above their leaf size of 16
+    let mut big: Vec<(String, Vec<Vec<f64>>, usize)> = Vec::new();
+    let grid = |side: usize, generic: bool| -> Vec<Vec<f64>> {
+        en::lattice_points(2, side).iter().enumerate().map(|(i, p)| p.iter().enumerate().map(|(j, &v)| v as f64 + if generic { en::jitter(i, j) } else { 0.0 }).collect()).collect()
+    };
+    big.push(("grid5x5".into(), grid(5, false), 2));
+    big.push(("grid5x5_generic".into(), grid(5, true), 2));
+    big.push(("line20_duplicates".into(), (0..20).map(|i| vec![(i / 2) as f64 * 0.5]).collect(), 1));
+    big.push((
+        "cube3x3x3_generic".into(),
+        en::lattice_points(3, 3).iter().enumerate().map(|(i, p)| p.iter().enumerate().map(|(j, &v)| v as f64 * 0.75 + en::jitter(i, j)).collect()).collect(),
+        3,
+    ));
+    if ctx.thorough() {
+        big.push(("grid6x6_generic".into(), grid(6, true), 2));
+        big.push(("grid7x7_generic".into(), grid(7, true), 2));
+        big.push(("grid6x6".into(), grid(6, false), 2));
+    }
     let mut methods: Vec<(&str, f64, f64)> = vec![("linear", 0.0, 0.0), ("gaussian", 0.5, 0.0), ("gaussian", 2.0, 0.0)];
+    if ctx.thorough() {
+        methods.push(("gaussian", 0.125, 0.0));
+        methods.push(("gaussian", 8.0, 0.0));
+    }
     for c in [0.0, 1.0] {
         for d in [1.0, 2.0, 3.0] {
             methods.push(("poly", c, d));
         }
     }
     let mut cases: Vec<Case> = Vec::new();
-    for (fam, pts, d) in &sets {
+    for (is_big, (fam, pts, d)) in sets.iter().map(|s| (false, s)).chain(big.iter().map(|s| (true, s))) {
         for f in ["f64", "f32"] {
             for (k, p1, p2) in &methods {
-                cases.push(Case { family: fam.clone(), points: pts.clone(), dim: *d, float: f.into(), kernel: k.to_string(), p1: *p1, p2: *p2 });
+                // clustering sweep: quick = f64 Gaussian kernels everywhere, plus Linear and Polynomial(1,2)
+                // (dissimilarities of either sign, floored similarities) on the small sets;
+                // thorough = every kernel method, f64 and f32
+                // (large sets: generic-position Gaussian kernels only - tie exploration is exponential there)
+                let big_ok = fam.ends_with("_generic") && *k == "gaussian";
+                let cluster = if ctx.thorough() {
+                    !is_big || big_ok
+                } else {
+                    f == "f64" && if is_big { big_ok } else { *k == "gaussian" || *k == "linear" || (*k == "poly" && *p1 == 1.0 && *p2 == 2.0) }
+                };
+                cases.push(Case { family: fam.clone(), points: pts.clone(), dim: *d, float: f.into(), kernel: k.to_string(), p1: *p1, p2: *p2, cluster });
             }
         }
     }
     // heaviest first (clustering sweeps on the largest sets), so the parallel sweep balances
-    cases.sort_by_key(|c| std::cmp::Reverse((c.kernel == "gaussian" && c.float == "f64") as usize * 100 + c.points.len()));
-    ctx.extra("point_sets", json!(sets.len()));
+    cases.sort_by_key(|c| std::cmp::Reverse(c.cluster as usize * 1000 + c.points.len()));
+    ctx.extra("point_sets", json!(sets.len() + big.len()));
+    ctx.extra("large_point_sets", json!(big.iter().map(|b| format!("{} (n={})", b.0, b.1.len())).collect::<Vec<_>>()));
     ctx.extra("cases_enumerated", json!(cases.len()));
 
     let totals: std::sync::Mutex<Counters> = std::sync::Mutex::new(Counters::new());
